@@ -265,7 +265,7 @@ class DefaultWorker(Worker):
             os.environ[k] = v
 
         # ----------------------------------------------------------------------
-        def _worker_proc(res_lock):
+        def _worker_proc(res_lock, res_done):
             # FIXME: do we still need this thread?
 
             import setproctitle
@@ -306,6 +306,7 @@ class DefaultWorker(Worker):
 
             with res_lock:
                 self._result_queue.put(res)
+                res_done.set()
         # ----------------------------------------------------------------------
 
 
@@ -317,20 +318,28 @@ class DefaultWorker(Worker):
           #                 task['uid'], task['pid'], tout)
 
             res_lock = mp.Lock()
-            worker_proc = mp.Process(target=_worker_proc, args=(res_lock,))
+            res_done = mp.Event()
+            worker_proc = mp.Process(target=_worker_proc,
+                                     args=(res_lock, res_done))
             worker_proc.daemon = True
             worker_proc.start()
             worker_proc.join(timeout=tout)
 
             with res_lock:
-                if worker_proc.is_alive():
-                    worker_proc.terminate()
-                    worker_proc.join()
+                # only report on behalf of the worker process if it did not
+                # send its own result: it either timed out or died
+                if not res_done.is_set():
+                    if worker_proc.is_alive():
+                        worker_proc.terminate()
+                        worker_proc.join()
+                        err = 'timeout (>%s)' % tout
+                        exc = ['TimeoutError("task timed out")', None]
+                    else:
+                        err = 'worker process died (%s)' % worker_proc.exitcode
+                        exc = ['RuntimeError("worker process died")', None]
                     out = None
-                    err = 'timeout (>%s)' % tout
                     ret = 1
                     val = None
-                    exc = ['TimeoutError("task timed out")', None]
                     res = [task, str(out), str(err), int(ret), val, exc]
                     self._log.debug('put 2 result: task %s', task['uid'])
                     self._result_queue.put(res)
